@@ -95,11 +95,13 @@ func synchronise(c io.Reader, w []byte, v []byte, n, m int) ([]byte, error) {
 		m = n
 	}
 	for {
-		i := bytes.Index(w, v)
+		l := len(w)
+		// only look at the first n bytes, so that the result
+		// doesn't depend on how much we happened to read
+		i := bytes.Index(w[:min(l, n)], v)
 		if i >= 0 {
 			return w[i+len(v):], nil
 		}
-		l := len(w)
 		if l >= n {
 			return w, errors.New("couldn't synchronise")
 		}
